@@ -105,22 +105,26 @@ package state
 //@ end
 
 //@ func (*nick).isOn
-//@   property C14
+//@   property C14, C12
 //@   safety C14
 //@   requires nk != nil
 //@   modifies ChanPrivs.Owner, ChanPrivs.Admin, ChanPrivs.Op, ChanPrivs.HalfOp, ChanPrivs.Voice
 //@   ensures result0 == nil || fresh(result0)
 //@   ensures result1 <==> has(nk.chans, ch)
+//@   requires [C12] TI() && isa(nk, "nick")
+//@   ensures [C12] (result1 ==> privEq(result0, nk.chans[ch])) && (!result1 ==> result0 == nil)
 //@   ensures forall p *ChanPrivs :: !fresh(p) ==> p.Owner == old(p.Owner) && p.Admin == old(p.Admin) && p.Op == old(p.Op) && p.HalfOp == old(p.HalfOp) && p.Voice == old(p.Voice)
 //@ end
 
 //@ func (*channel).isOn
-//@   property C14
+//@   property C14, C12
 //@   safety C14
 //@   requires ch != nil
 //@   modifies ChanPrivs.Owner, ChanPrivs.Admin, ChanPrivs.Op, ChanPrivs.HalfOp, ChanPrivs.Voice
 //@   ensures result0 == nil || fresh(result0)
 //@   ensures result1 <==> has(ch.nicks, nk)
+//@   requires [C12] TI() && isa(ch, "channel")
+//@   ensures [C12] (result1 ==> privEq(result0, ch.nicks[nk])) && (!result1 ==> result0 == nil)
 //@   ensures forall p *ChanPrivs :: !fresh(p) ==> p.Owner == old(p.Owner) && p.Admin == old(p.Admin) && p.Op == old(p.Op) && p.HalfOp == old(p.HalfOp) && p.Voice == old(p.Voice)
 //@ end
 
@@ -130,8 +134,8 @@ package state
 //@ func newNick
 //@   property C14, C12
 //@   safety C12
-//@   requires [C12] TI()
-//@   ensures [C12] TI() && isa(result, "nick")
+//@   requires [C12] HI()
+//@   ensures [C12] HI() && isa(result, "nick") && (forall o *nick :: fresh(o) && isa(o, "nick") ==> o == result) && (forall o *channel :: !(fresh(o) && isa(o, "channel")))
 //@   ensures result != nil && fresh(result) && nickOK(result) && result.nick == n && result.modes != nil && fresh(result.modes)
 //@   ensures result.chans != nil && fresh(result.chans) && result.lookup != nil && fresh(result.lookup) && dom(result.chans) === emptyset() && dom(result.lookup) === emptyset()
 //@ end
@@ -139,8 +143,8 @@ package state
 //@ func newChannel
 //@   property C14, C12
 //@   safety C12
-//@   requires [C12] TI()
-//@   ensures [C12] TI() && isa(result, "channel")
+//@   requires [C12] HI()
+//@   ensures [C12] HI() && isa(result, "channel") && (forall o *channel :: fresh(o) && isa(o, "channel") ==> o == result) && (forall o *nick :: !(fresh(o) && isa(o, "nick")))
 //@   ensures result != nil && fresh(result) && chanOK(result) && result.name == name && result.modes != nil && fresh(result.modes)
 //@   ensures result.nicks != nil && fresh(result.nicks) && result.lookup != nil && fresh(result.lookup) && dom(result.nicks) === emptyset() && dom(result.lookup) === emptyset()
 //@ end
@@ -157,6 +161,7 @@ package state
 //@   ensures old(has(nk.chans, ch)) ==> dom(nk.chans) === old(dom(nk.chans)) && vals(nk.chans) === old(vals(nk.chans))
 //@        && dom(nk.lookup) === old(dom(nk.lookup)) && vals(nk.lookup) === old(vals(nk.lookup))
 //@   ensures forall c *channel :: c != ch && has(nk.chans, c) ==> nk.chans[c] == old(nk.chans[c])
+//@   ensures [C12] forall k int :: k != sid(ch.name) ==> vals(nk.lookup)[k] == old(vals(nk.lookup)[k])
 //@ end
 
 //@ func (*nick).delChannel
@@ -183,6 +188,7 @@ package state
 //@   ensures old(has(ch.nicks, nk)) ==> dom(ch.nicks) === old(dom(ch.nicks)) && vals(ch.nicks) === old(vals(ch.nicks))
 //@        && dom(ch.lookup) === old(dom(ch.lookup)) && vals(ch.lookup) === old(vals(ch.lookup))
 //@   ensures forall n *nick :: n != nk && has(ch.nicks, n) ==> ch.nicks[n] == old(ch.nicks[n])
+//@   ensures [C12] forall k int :: k != sid(nk.nick) ==> vals(ch.lookup)[k] == old(vals(ch.lookup)[k])
 //@ end
 
 //@ func (*channel).delNick
@@ -217,8 +223,8 @@ package state
 //@   safety C12
 //@   attr lockcheck=C14
 //@   requires st != nil && held(st.mu) == 1
-//@   requires [C12] RI(st) && tracked(st, nk) && isa(nk, "nick")
-//@   ensures [C12] RI(st)
+//@   requires [C12] RIn(st) && tracked(st, nk) && isa(nk, "nick")
+//@   ensures [C12] RIn(st)
 //@   ensures [C12] st.me == old(st.me) && st.nicks == old(st.nicks) && st.chans == old(st.chans) && nk.nick == old(nk.nick)
 //@   ensures [C12] dom(st.chans) === old(dom(st.chans)) && vals(st.chans) === old(vals(st.chans)) && vals(st.nicks) === old(vals(st.nicks))
 //@   ensures [C12] nk == st.me ==> dom(st.nicks) === old(dom(st.nicks))
@@ -259,7 +265,7 @@ package state
 //@   modifies mapsof("map[string]*nick"), mapsof("map[string]*channel"), mapsof("map[*nick]*ChanPrivs"), mapsof("map[*channel]*ChanPrivs"), $log
 //@   ensures $held === old($held)
 //@   loop 0:
-//@     invariant [C12] HI() && trkShape(st) && sepIdx(st) && LT(st) && ch != nil && isa(ch, "channel")
+//@     invariant [C12] HI() && trkShape(st) && sepIdx(st) && LT(st) && LT2x(st, ch) && ch != nil && isa(ch, "channel")
 //@     invariant [C12] mapValsSame()
 //@     invariant [C12] forall n *nick :: old(has(ch.nicks, n)) && !has(ch.nicks, n) && n != st.me && len(n.chans) == 0 ==> !has(st.nicks, n.nick)
 //@     invariant [C12] forall k int :: old(has(dom(st.nicks), k)) && !has(dom(st.nicks), k) ==> old(has(ch.nicks, vals(st.nicks)[k])) && !has(ch.nicks, vals(st.nicks)[k]) && vals(st.nicks)[k] != st.me && len(vals(st.nicks)[k].chans) == 0
@@ -293,45 +299,47 @@ package state
 //@ func (*stateTracker).Wipe
 //@   property C14, C12
 //@   attr lockcheck=C14
-//@   requires [C12] TI()
-//@   ensures [C12] TI()
 //@   requires trkOK(st) && held(st.mu) == 0
 //@   modifies mapsof("map[string]*nick"), mapsof("map[string]*channel"), mapsof("map[*nick]*ChanPrivs"), mapsof("map[*channel]*ChanPrivs"), nick.nick, nick.ident, nick.host, nick.name, channel.topic, $log, $held, $tr
 //@   ensures $held === old($held)
 //@   ensures $trlen == old($trlen) + 2 && $tr[old($trlen)] == ev("lock", st.mu) && $tr[old($trlen)+1] == ev("unlock", st.mu)
+//@   requires [C12] RI(st)
+//@   ensures [C12] RI(st) && st.me == old(st.me) && st.nicks == old(st.nicks) && st.chans == old(st.chans)
+//@   ensures [C12] dom(st.chans) === emptyset()
+//@   ensures [C12] vals(st.nicks) === old(vals(st.nicks)) && (forall k int :: has(dom(st.nicks), k) ==> old(has(dom(st.nicks), k)))
 //@   loop 0:
 //@     invariant held(st.mu) == 1 && $held === upd(old($held), st.mu, 1)
+//@     invariant [C12] RI(st) && st.me == old(st.me) && st.nicks == old(st.nicks) && st.chans == old(st.chans)
+//@     invariant [C12] forall k int :: has(dom(st.chans), k) ==> !has(visited(), k)
+//@     invariant [C12] vals(st.nicks) === old(vals(st.nicks)) && (forall k int :: has(dom(st.nicks), k) ==> old(has(dom(st.nicks), k)))
 //@ end
 //@ func (*stateTracker).NewNick
 //@   property C14, C12
 //@   attr lockcheck=C14
-//@   requires [C12] TI()
-//@   ensures [C12] TI()
 //@   requires trkOK(st) && held(st.mu) == 0
 //@   modifies mapsof("map[string]*nick"), mapsof("map[string]*channel"), mapsof("map[*nick]*ChanPrivs"), mapsof("map[*channel]*ChanPrivs"), nick.nick, nick.ident, nick.host, nick.name, channel.topic, $log, $held, $tr
 //@   ensures $held === old($held)
 //@   ensures $trlen == old($trlen) || ($trlen == old($trlen) + 2 && $tr[old($trlen)] == ev("lock", st.mu) && $tr[old($trlen)+1] == ev("unlock", st.mu))
 //@   ensures result == nil || freshNick(result)
-//@   requires [C12] trkShape(st)
+//@   requires [C12] RI(st)
+//@   ensures [C12] RI(st) && st.me == old(st.me) && st.nicks == old(st.nicks) && st.chans == old(st.chans)
 //@   ensures [C12] (n == "" || old(has(st.nicks, n))) ==> result == nil && trkUnchanged(st)
 //@   ensures [C12] !(n == "" || old(has(st.nicks, n))) ==> result != nil && result.Nick == n
 //@        && dom(st.nicks) === setadd(old(dom(st.nicks)), n) && fresh(st.nicks[n]) && st.nicks[n].nick == n
 //@        && dom(st.nicks[n].chans) === emptyset() && dom(st.nicks[n].lookup) === emptyset()
 //@        && (forall k int :: k != sid(n) ==> vals(st.nicks)[k] == old(vals(st.nicks)[k]))
-//@        && dom(st.chans) === old(dom(st.chans)) && vals(st.chans) === old(vals(st.chans)) && st.me == old(st.me)
-//@   ensures [C12] trkShape(st)
+//@        && dom(st.chans) === old(dom(st.chans)) && vals(st.chans) === old(vals(st.chans)) && objsUnchanged(st)
 //@ end
 //@ func (*stateTracker).GetNick
 //@   property C14, C12
 //@   attr lockcheck=C14
-//@   requires [C12] TI()
-//@   ensures [C12] TI()
 //@   requires trkOK(st) && held(st.mu) == 0
 //@   modifies mapsof("map[string]*nick"), mapsof("map[string]*channel"), mapsof("map[*nick]*ChanPrivs"), mapsof("map[*channel]*ChanPrivs"), nick.nick, nick.ident, nick.host, nick.name, channel.topic, $log, $held, $tr
 //@   ensures $held === old($held)
 //@   ensures $trlen == old($trlen) || ($trlen == old($trlen) + 2 && $tr[old($trlen)] == ev("lock", st.mu) && $tr[old($trlen)+1] == ev("unlock", st.mu))
 //@   ensures result == nil || freshNick(result)
-//@   requires [C12] trkShape(st)
+//@   requires [C12] RI(st)
+//@   ensures [C12] RI(st) && st.me == old(st.me) && st.nicks == old(st.nicks) && st.chans == old(st.chans)
 //@   ensures [C12] has(st.nicks, n) ==> result != nil && result.Nick == n && result.Ident == st.nicks[n].ident && result.Host == st.nicks[n].host && result.Name == st.nicks[n].name
 //@   ensures [C12] !has(st.nicks, n) ==> result == nil
 //@   ensures [C12] trkUnchanged(st)
@@ -339,157 +347,219 @@ package state
 //@ func (*stateTracker).ReNick
 //@   property C14, C12
 //@   attr lockcheck=C14
-//@   requires [C12] TI()
-//@   ensures [C12] TI()
 //@   requires trkOK(st) && held(st.mu) == 0
 //@   modifies mapsof("map[string]*nick"), mapsof("map[string]*channel"), mapsof("map[*nick]*ChanPrivs"), mapsof("map[*channel]*ChanPrivs"), nick.nick, nick.ident, nick.host, nick.name, channel.topic, $log, $held, $tr
 //@   ensures $held === old($held)
 //@   ensures $trlen == old($trlen) || ($trlen == old($trlen) + 2 && $tr[old($trlen)] == ev("lock", st.mu) && $tr[old($trlen)+1] == ev("unlock", st.mu))
 //@   ensures result == nil || freshNick(result)
+//@   requires [C12] RI(st)
+//@   ensures [C12] RI(st) && st.me == old(st.me) && st.nicks == old(st.nicks) && st.chans == old(st.chans)
+//@   ensures [C12] (!old(has(st.nicks, old)) || old(has(st.nicks, neu))) ==> result == nil && trkUnchanged(st)
+// a rename re-keys the index and carries the nick object (hence its memberships and privileges) along
+//@   ensures [C12] old(has(st.nicks, old)) && !old(has(st.nicks, neu)) ==> result != nil && result.Nick == neu && nk == old(st.nicks[old]) && nk.nick == neu
+//@        && dom(st.nicks) === setadd(upd(old(dom(st.nicks)), old, false), neu) && st.nicks[neu] == nk
+//@        && (forall k int :: k != sid(neu) ==> vals(st.nicks)[k] == old(vals(st.nicks)[k]))
+//@        && (forall o *nick :: o != nk ==> o.nick == old(o.nick))
+//@        && dom(st.chans) === old(dom(st.chans)) && vals(st.chans) === old(vals(st.chans)) && membersUnchanged()
 //@   loop 0:
 //@     invariant held(st.mu) == 1 && $held === upd(old($held), st.mu, 1)
+//@     invariant [C12] TI() && OWN() && TW() && LKr(nk, old, neu) && trkShape(st) && LT(st) && LT2(st) && sepIdx(st) && st.me == old(st.me) && st.nicks == old(st.nicks) && st.chans == old(st.chans)
+//@     invariant [C12] nk != nil && isa(nk, "nick") && nk == old(st.nicks[old]) && nk.nick == neu && old != neu && tracked(st, nk)
+//@     invariant [C12] dom(st.nicks) === setadd(upd(old(dom(st.nicks)), old, false), neu)
+//@     invariant [C12] (forall k int :: k != sid(neu) ==> vals(st.nicks)[k] == old(vals(st.nicks)[k]))
+//@     invariant [C12] (forall o *nick :: o != nk ==> o.nick == old(o.nick))
+//@     invariant [C12] dom(st.chans) === old(dom(st.chans)) && vals(st.chans) === old(vals(st.chans)) && membersUnchanged()
 //@ end
 //@ func (*stateTracker).DelNick
 //@   property C14, C12
 //@   attr lockcheck=C14
-//@   requires [C12] TI()
-//@   ensures [C12] TI()
 //@   requires trkOK(st) && held(st.mu) == 0
 //@   modifies mapsof("map[string]*nick"), mapsof("map[string]*channel"), mapsof("map[*nick]*ChanPrivs"), mapsof("map[*channel]*ChanPrivs"), nick.nick, nick.ident, nick.host, nick.name, channel.topic, $log, $held, $tr
 //@   ensures $held === old($held)
 //@   ensures $trlen == old($trlen) || ($trlen == old($trlen) + 2 && $tr[old($trlen)] == ev("lock", st.mu) && $tr[old($trlen)+1] == ev("unlock", st.mu))
 //@   ensures result == nil || freshNick(result)
+//@   requires [C12] RI(st)
+//@   ensures [C12] RI(st) && st.me == old(st.me) && st.nicks == old(st.nicks) && st.chans == old(st.chans)
+//@   ensures [C12] (!old(has(st.nicks, n)) || old(st.nicks[n]) == st.me) ==> result == nil && trkUnchanged(st)
+// deleting a nick removes all its memberships and nothing else
+//@   ensures [C12] old(has(st.nicks, n)) && old(st.nicks[n]) != st.me ==> result != nil && result.Nick == n
+//@        && dom(st.nicks) === upd(old(dom(st.nicks)), n, false) && vals(st.nicks) === old(vals(st.nicks))
+//@        && dom(st.chans) === old(dom(st.chans)) && vals(st.chans) === old(vals(st.chans))
+//@        && len(old(st.nicks[n]).chans) == 0
+//@        && (forall c *channel, m *nick :: isa(c, "channel") ==> (has(c.nicks, m) <==> old(has(c.nicks, m)) && m != old(st.nicks[n])))
 //@ end
 //@ func (*stateTracker).NickInfo
 //@   property C14, C12
 //@   attr lockcheck=C14
-//@   requires [C12] TI()
-//@   ensures [C12] TI()
 //@   requires trkOK(st) && held(st.mu) == 0
 //@   modifies mapsof("map[string]*nick"), mapsof("map[string]*channel"), mapsof("map[*nick]*ChanPrivs"), mapsof("map[*channel]*ChanPrivs"), nick.nick, nick.ident, nick.host, nick.name, channel.topic, $log, $held, $tr
 //@   ensures $held === old($held)
 //@   ensures $trlen == old($trlen) || ($trlen == old($trlen) + 2 && $tr[old($trlen)] == ev("lock", st.mu) && $tr[old($trlen)+1] == ev("unlock", st.mu))
 //@   ensures result == nil || freshNick(result)
-//@   requires [C12] trkShape(st)
+//@   requires [C12] RI(st)
+//@   ensures [C12] RI(st) && st.me == old(st.me) && st.nicks == old(st.nicks) && st.chans == old(st.chans)
 //@   ensures [C12] !has(st.nicks, n) ==> result == nil && trkUnchanged(st)
 //@   ensures [C12] has(st.nicks, n) ==> result != nil && result.Nick == n && result.Ident == ident && result.Host == host && result.Name == name
 //@        && st.nicks[n].ident == ident && st.nicks[n].host == host && st.nicks[n].name == name
 //@        && (forall o *nick :: o != st.nicks[n] ==> o.ident == old(o.ident) && o.host == old(o.host) && o.name == old(o.name))
 //@        && (forall o *nick :: o.nick == old(o.nick) && o.chans == old(o.chans) && o.lookup == old(o.lookup))
-//@        && dom(st.nicks) === old(dom(st.nicks)) && vals(st.nicks) === old(vals(st.nicks))
-//@   ensures [C12] trkShape(st)
+//@        && idxUnchanged(st) && membersUnchanged()
 //@ end
 //@ func (*stateTracker).NickModes
 //@   property C14, C12
 //@   attr lockcheck=C14
-//@   requires [C12] TI()
-//@   ensures [C12] TI()
 //@   requires trkOK(st) && held(st.mu) == 0
 //@   modifies mapsof("map[string]*nick"), mapsof("map[string]*channel"), mapsof("map[*nick]*ChanPrivs"), mapsof("map[*channel]*ChanPrivs"), nick.nick, nick.ident, nick.host, nick.name, channel.topic, $log, $held, $tr
 //@   ensures $held === old($held)
 //@   ensures $trlen == old($trlen) || ($trlen == old($trlen) + 2 && $tr[old($trlen)] == ev("lock", st.mu) && $tr[old($trlen)+1] == ev("unlock", st.mu))
 //@   ensures result == nil || freshNick(result)
+//@   requires [C12] RI(st)
+//@   ensures [C12] RI(st) && st.me == old(st.me) && st.nicks == old(st.nicks) && st.chans == old(st.chans)
+//@   ensures [C12] !has(st.nicks, n) ==> result == nil
+//@   ensures [C12] has(st.nicks, n) ==> result != nil && result.Nick == n
+//@   ensures [C12] trkUnchanged(st)
 //@ end
 //@ func (*stateTracker).NewChannel
 //@   property C14, C12
 //@   attr lockcheck=C14
-//@   requires [C12] TI()
-//@   ensures [C12] TI()
 //@   requires trkOK(st) && held(st.mu) == 0
 //@   modifies mapsof("map[string]*nick"), mapsof("map[string]*channel"), mapsof("map[*nick]*ChanPrivs"), mapsof("map[*channel]*ChanPrivs"), nick.nick, nick.ident, nick.host, nick.name, channel.topic, $log, $held, $tr
 //@   ensures $held === old($held)
 //@   ensures $trlen == old($trlen) || ($trlen == old($trlen) + 2 && $tr[old($trlen)] == ev("lock", st.mu) && $tr[old($trlen)+1] == ev("unlock", st.mu))
 //@   ensures result == nil || freshChannel(result)
+//@   requires [C12] RI(st)
+//@   ensures [C12] RI(st) && st.me == old(st.me) && st.nicks == old(st.nicks) && st.chans == old(st.chans)
+//@   ensures [C12] (c == "" || old(has(st.chans, c))) ==> result == nil && trkUnchanged(st)
+//@   ensures [C12] !(c == "" || old(has(st.chans, c))) ==> result != nil && result.Name == c
+//@        && dom(st.chans) === setadd(old(dom(st.chans)), c) && fresh(st.chans[c]) && st.chans[c].name == c
+//@        && dom(st.chans[c].nicks) === emptyset() && dom(st.chans[c].lookup) === emptyset()
+//@        && (forall k int :: k != sid(c) ==> vals(st.chans)[k] == old(vals(st.chans)[k]))
+//@        && dom(st.nicks) === old(dom(st.nicks)) && vals(st.nicks) === old(vals(st.nicks)) && objsUnchanged(st)
 //@ end
 //@ func (*stateTracker).GetChannel
 //@   property C14, C12
 //@   attr lockcheck=C14
-//@   requires [C12] TI()
-//@   ensures [C12] TI()
 //@   requires trkOK(st) && held(st.mu) == 0
 //@   modifies mapsof("map[string]*nick"), mapsof("map[string]*channel"), mapsof("map[*nick]*ChanPrivs"), mapsof("map[*channel]*ChanPrivs"), nick.nick, nick.ident, nick.host, nick.name, channel.topic, $log, $held, $tr
 //@   ensures $held === old($held)
 //@   ensures $trlen == old($trlen) || ($trlen == old($trlen) + 2 && $tr[old($trlen)] == ev("lock", st.mu) && $tr[old($trlen)+1] == ev("unlock", st.mu))
 //@   ensures result == nil || freshChannel(result)
+//@   requires [C12] RI(st)
+//@   ensures [C12] RI(st) && st.me == old(st.me) && st.nicks == old(st.nicks) && st.chans == old(st.chans)
+//@   ensures [C12] has(st.chans, c) ==> result != nil && result.Name == c && result.Topic == st.chans[c].topic
+//@   ensures [C12] !has(st.chans, c) ==> result == nil
+//@   ensures [C12] trkUnchanged(st)
 //@ end
 //@ func (*stateTracker).DelChannel
 //@   property C14, C12
 //@   attr lockcheck=C14
-//@   requires [C12] TI()
-//@   ensures [C12] TI()
 //@   requires trkOK(st) && held(st.mu) == 0
 //@   modifies mapsof("map[string]*nick"), mapsof("map[string]*channel"), mapsof("map[*nick]*ChanPrivs"), mapsof("map[*channel]*ChanPrivs"), nick.nick, nick.ident, nick.host, nick.name, channel.topic, $log, $held, $tr
 //@   ensures $held === old($held)
 //@   ensures $trlen == old($trlen) || ($trlen == old($trlen) + 2 && $tr[old($trlen)] == ev("lock", st.mu) && $tr[old($trlen)+1] == ev("unlock", st.mu))
 //@   ensures result == nil || freshChannel(result)
+//@   requires [C12] RI(st)
+//@   ensures [C12] RI(st) && st.me == old(st.me) && st.nicks == old(st.nicks) && st.chans == old(st.chans)
+//@   ensures [C12] !old(has(st.chans, c)) ==> result == nil && trkUnchanged(st)
+// deleting a channel forgets it and every other nick that is left sharing no channel
+//@   ensures [C12] old(has(st.chans, c)) ==> result != nil && result.Name == c && gcChannel(st, old(st.chans[c]))
+//@        && dom(st.chans) === upd(old(dom(st.chans)), c, false)
 //@ end
 //@ func (*stateTracker).Topic
 //@   property C14, C12
 //@   attr lockcheck=C14
-//@   requires [C12] TI()
-//@   ensures [C12] TI()
 //@   requires trkOK(st) && held(st.mu) == 0
 //@   modifies mapsof("map[string]*nick"), mapsof("map[string]*channel"), mapsof("map[*nick]*ChanPrivs"), mapsof("map[*channel]*ChanPrivs"), nick.nick, nick.ident, nick.host, nick.name, channel.topic, $log, $held, $tr
 //@   ensures $held === old($held)
 //@   ensures $trlen == old($trlen) || ($trlen == old($trlen) + 2 && $tr[old($trlen)] == ev("lock", st.mu) && $tr[old($trlen)+1] == ev("unlock", st.mu))
 //@   ensures result == nil || freshChannel(result)
+//@   requires [C12] RI(st)
+//@   ensures [C12] RI(st) && st.me == old(st.me) && st.nicks == old(st.nicks) && st.chans == old(st.chans)
+//@   ensures [C12] !has(st.chans, c) ==> result == nil && trkUnchanged(st)
+//@   ensures [C12] has(st.chans, c) ==> result != nil && result.Name == c && result.Topic == topic && st.chans[c].topic == topic
+//@        && (forall o *channel :: o != st.chans[c] ==> o.topic == old(o.topic))
+//@        && (forall o *channel :: o.name == old(o.name) && o.nicks == old(o.nicks) && o.lookup == old(o.lookup))
+//@        && (forall o *nick :: o.nick == old(o.nick) && o.ident == old(o.ident) && o.host == old(o.host) && o.name == old(o.name) && o.chans == old(o.chans) && o.lookup == old(o.lookup))
+//@        && idxUnchanged(st) && membersUnchanged()
 //@ end
 //@ func (*stateTracker).ChannelModes
 //@   property C14, C12
 //@   attr lockcheck=C14
-//@   requires [C12] TI()
-//@   ensures [C12] TI()
 //@   requires trkOK(st) && held(st.mu) == 0
 //@   modifies mapsof("map[string]*nick"), mapsof("map[string]*channel"), mapsof("map[*nick]*ChanPrivs"), mapsof("map[*channel]*ChanPrivs"), nick.nick, nick.ident, nick.host, nick.name, channel.topic, $log, $held, $tr
 //@   ensures $held === old($held)
 //@   ensures $trlen == old($trlen) || ($trlen == old($trlen) + 2 && $tr[old($trlen)] == ev("lock", st.mu) && $tr[old($trlen)+1] == ev("unlock", st.mu))
 //@   ensures result == nil || freshChannel(result)
+//@   requires [C12] RI(st)
+//@   ensures [C12] RI(st) && st.me == old(st.me) && st.nicks == old(st.nicks) && st.chans == old(st.chans)
+//@   ensures [C12] !has(st.chans, c) ==> result == nil
+//@   ensures [C12] has(st.chans, c) ==> result != nil && result.Name == c
+//@   ensures [C12] trkUnchanged(st)
 //@ end
 //@ func (*stateTracker).Me
 //@   property C14, C12
 //@   attr lockcheck=C14
-//@   requires [C12] TI()
-//@   ensures [C12] TI()
 //@   requires trkOK(st) && held(st.mu) == 0
 //@   modifies mapsof("map[string]*nick"), mapsof("map[string]*channel"), mapsof("map[*nick]*ChanPrivs"), mapsof("map[*channel]*ChanPrivs"), nick.nick, nick.ident, nick.host, nick.name, channel.topic, $log, $held, $tr
 //@   ensures $held === old($held)
 //@   ensures $trlen == old($trlen) || ($trlen == old($trlen) + 2 && $tr[old($trlen)] == ev("lock", st.mu) && $tr[old($trlen)+1] == ev("unlock", st.mu))
 //@   ensures result == nil || freshNick(result)
-//@   requires [C12] trkShape(st)
-//@   ensures [C12] result != nil && result.Nick == st.me.nick && trkUnchanged(st)
+//@   requires [C12] RI(st)
+//@   ensures [C12] RI(st) && st.me == old(st.me) && st.nicks == old(st.nicks) && st.chans == old(st.chans)
+//@   ensures [C12] result != nil && result.Nick == st.me.nick && result.Ident == st.me.ident && result.Host == st.me.host && result.Name == st.me.name && trkUnchanged(st)
 //@ end
 //@ func (*stateTracker).IsOn
 //@   property C14, C12
 //@   attr lockcheck=C14
-//@   requires [C12] TI()
-//@   ensures [C12] TI()
 //@   requires trkOK(st) && held(st.mu) == 0
 //@   modifies mapsof("map[string]*nick"), mapsof("map[string]*channel"), mapsof("map[*nick]*ChanPrivs"), mapsof("map[*channel]*ChanPrivs"), nick.nick, nick.ident, nick.host, nick.name, channel.topic, $log, $held, $tr
 //@   ensures $held === old($held)
 //@   ensures $trlen == old($trlen) + 2 && $tr[old($trlen)] == ev("lock", st.mu) && $tr[old($trlen)+1] == ev("unlock", st.mu)
+//@   requires [C12] RI(st)
+//@   ensures [C12] RI(st) && st.me == old(st.me) && st.nicks == old(st.nicks) && st.chans == old(st.chans)
 //@   ensures result0 == nil || fresh(result0)
+//@   ensures [C12] result1 <==> has(st.nicks, n) && has(st.chans, c) && has(st.nicks[n].chans, st.chans[c])
+//@   ensures [C12] result1 ==> result0 != nil && privEq(result0, st.nicks[n].chans[st.chans[c]])
+//@   ensures [C12] !result1 ==> result0 == nil
+//@   ensures [C12] trkUnchanged(st)
 //@ end
 //@ func (*stateTracker).Associate
 //@   property C14, C12
 //@   attr lockcheck=C14
-//@   requires [C12] TI()
-//@   ensures [C12] TI()
 //@   requires trkOK(st) && held(st.mu) == 0
 //@   modifies mapsof("map[string]*nick"), mapsof("map[string]*channel"), mapsof("map[*nick]*ChanPrivs"), mapsof("map[*channel]*ChanPrivs"), nick.nick, nick.ident, nick.host, nick.name, channel.topic, $log, $held, $tr
 //@   ensures $held === old($held)
 //@   ensures $trlen == old($trlen) + 2 && $tr[old($trlen)] == ev("lock", st.mu) && $tr[old($trlen)+1] == ev("unlock", st.mu)
+//@   requires [C12] RI(st)
+//@   ensures [C12] RI(st) && st.me == old(st.me) && st.nicks == old(st.nicks) && st.chans == old(st.chans)
+//@   hint sid(c), sid(n)
 //@   ensures result == nil || fresh(result)
 //@   ensures result != nil ==> nk.chans[ch] != result && (!old(has(ch.nicks, nk)) ==> ch.nicks[nk] != result)
+//@   ensures [C12] let ok := old(has(st.chans, c) && has(st.nicks, n) && !has(st.nicks[n].chans, st.chans[c])) in
+//@        (!ok ==> result == nil && trkUnchanged(st))
+//@     && (ok ==> result != nil && !result.Owner && !result.Admin && !result.Op && !result.HalfOp && !result.Voice
+//@          && nk == st.nicks[n] && ch == st.chans[c] && idxUnchanged(st) && objsUnchanged(st)
+//@          && has(nk.chans, ch) && has(ch.nicks, nk) && fresh(nk.chans[ch]) && privEq(nk.chans[ch], result)
+//@          && (forall x *channel, m *nick :: isa(x, "channel") && !(x == ch && m == nk) ==> (has(x.nicks, m) <==> old(has(x.nicks, m))) && (has(x.nicks, m) ==> x.nicks[m] == old(x.nicks[m]))))
 //@ end
 //@ func (*stateTracker).Dissociate
 //@   property C14, C12
 //@   attr lockcheck=C14
-//@   requires [C12] TI()
-//@   ensures [C12] TI()
 //@   requires trkOK(st) && held(st.mu) == 0
 //@   modifies mapsof("map[string]*nick"), mapsof("map[string]*channel"), mapsof("map[*nick]*ChanPrivs"), mapsof("map[*channel]*ChanPrivs"), nick.nick, nick.ident, nick.host, nick.name, channel.topic, $log, $held, $tr
 //@   ensures $held === old($held)
 //@   ensures $trlen == old($trlen) + 2 && $tr[old($trlen)] == ev("lock", st.mu) && $tr[old($trlen)+1] == ev("unlock", st.mu)
+//@   requires [C12] RI(st)
+//@   ensures [C12] RI(st) && st.me == old(st.me) && st.nicks == old(st.nicks) && st.chans == old(st.chans)
+//@   ensures [C12] let ok := old(has(st.chans, c) && has(st.nicks, n) && has(st.nicks[n].chans, st.chans[c])) in
+//@        (!ok ==> trkUnchanged(st))
+// the client leaving a channel forgets the channel (and collects nicks as DelChannel does)
+//@     && (ok && old(st.nicks[n]) == st.me ==> gcChannel(st, old(st.chans[c])) && dom(st.chans) === upd(old(dom(st.chans)), c, false))
+// anybody else leaving: that one membership goes, and the nick with it if it was its last
+//@     && (ok && old(st.nicks[n]) != st.me ==> dom(st.chans) === old(dom(st.chans)) && vals(st.chans) === old(vals(st.chans)) && vals(st.nicks) === old(vals(st.nicks))
+//@          && (forall x *channel, m *nick :: isa(x, "channel") ==> (has(x.nicks, m) <==> old(has(x.nicks, m)) && !(x == old(st.chans[c]) && m == old(st.nicks[n]))))
+//@          && (len(old(st.nicks[n]).chans) == 0 ==> dom(st.nicks) === upd(old(dom(st.nicks)), n, false))
+//@          && (len(old(st.nicks[n]).chans) != 0 ==> dom(st.nicks) === old(dom(st.nicks))))
 //@ end
 
 // ---------------------------------------------------------------------------
@@ -501,9 +571,9 @@ package state
 
 // Heap-wide type invariant: every nick / channel object ever allocated has its
 // maps and mode struct, and the membership maps hold non-nil keys and values.
-//@ pred TI() := (forall n *nick :: isa(n, "nick") ==> n.chans != nil && n.lookup != nil && n.modes != nil
+//@ pred TI() := (forall n *nick :: isa(n, "nick") ==> n.chans != nil && n.lookup != nil && n.modes != nil && allocated(n.chans) && allocated(n.lookup)
 //@        && (forall c *channel :: has(n.chans, c) ==> c != nil && n.chans[c] != nil))
-//@     && (forall c *channel :: isa(c, "channel") ==> c.nicks != nil && c.lookup != nil && c.modes != nil
+//@     && (forall c *channel :: isa(c, "channel") ==> c.nicks != nil && c.lookup != nil && c.modes != nil && allocated(c.nicks) && allocated(c.lookup)
 //@        && (forall n *nick :: has(c.nicks, n) ==> n != nil && c.nicks[n] != nil))
 
 // Ownership: no two nick / channel objects share a map.
@@ -512,24 +582,60 @@ package state
 // The membership relation is stored twice, with one shared ChanPrivs per pair.
 //@ pred TW() := (forall n *nick, c *channel :: isa(n, "nick") && has(n.chans, c) ==> isa(c, "channel") && has(c.nicks, n) && c.nicks[n] == n.chans[c])
 //@     && (forall c *channel, n *nick :: isa(c, "channel") && has(c.nicks, n) ==> isa(n, "nick") && has(n.chans, c))
-//@ pred HI() := TI() && OWN() && TW()
+// The name lookups mirror the membership maps.
+//@ pred LK() := (forall n *nick, k int :: isa(n, "nick") && has(dom(n.lookup), k) ==> vals(n.lookup)[k] != nil && has(n.chans, vals(n.lookup)[k]) && sid(vals(n.lookup)[k].name) == k)
+//@     && (forall n *nick, c *channel :: isa(n, "nick") && has(n.chans, c) ==> has(n.lookup, c.name) && n.lookup[c.name] == c)
+//@     && (forall c *channel, k int :: isa(c, "channel") && has(dom(c.lookup), k) ==> vals(c.lookup)[k] != nil && has(c.nicks, vals(c.lookup)[k]) && sid(vals(c.lookup)[k].nick) == k)
+//@     && (forall c *channel, n *nick :: isa(c, "channel") && has(c.nicks, n) ==> has(c.lookup, n.nick) && c.lookup[n.nick] == n)
+//@ pred HI() := TI() && OWN() && TW() && LK()
 //@ pred tracked(st *stateTracker, n *nick) := n != nil && has(st.nicks, n.nick) && st.nicks[n.nick] == n
 //@ pred trackedC(st *stateTracker, c *channel) := c != nil && has(st.chans, c.name) && st.chans[c.name] == c
 // every member of a tracked channel is a tracked nick
 //@ pred LT(st *stateTracker) := forall k int, n *nick :: has(dom(st.chans), k) && has(vals(st.chans)[k].nicks, n) ==> tracked(st, n)
+// every channel of a tracked nick is a tracked channel (while delChannel runs,
+// all but the channel being deleted)
+//@ pred LT2(st *stateTracker) := forall k int, c *channel :: has(dom(st.nicks), k) && has(vals(st.nicks)[k].chans, c) ==> trackedC(st, c)
+//@ pred LT2x(st *stateTracker, x *channel) := forall k int, c *channel :: has(dom(st.nicks), k) && has(vals(st.nicks)[k].chans, c) && c != x ==> trackedC(st, c)
 //@ pred LTx(st *stateTracker, x *nick) := forall k int, n *nick :: has(dom(st.chans), k) && has(vals(st.chans)[k].nicks, n) && n != x ==> tracked(st, n)
 // the name indexes are not any object's lookup map
 //@ pred sepIdx(st *stateTracker) := (forall n *nick :: isa(n, "nick") ==> n.lookup != st.chans) && (forall c *channel :: isa(c, "channel") ==> c.lookup != st.nicks)
 // deletions never change stored values
 //@ pred mapValsSame() := (forall m map[*channel]*ChanPrivs :: vals(m) === old(vals(m))) && (forall m map[*nick]*ChanPrivs :: vals(m) === old(vals(m)))
 //@     && (forall m map[string]*channel :: vals(m) === old(vals(m))) && (forall m map[string]*nick :: vals(m) === old(vals(m)))
-//@ pred RI(st *stateTracker) := HI() && trkShape(st) && LT(st) && sepIdx(st)
+//@ pred RIn(st *stateTracker) := HI() && trkShape(st) && LT(st) && sepIdx(st)
+//@ pred RI(st *stateTracker) := RIn(st) && LT2(st)
 
-//@ pred trkShape(st *stateTracker) := st != nil && st.nicks != nil && st.chans != nil && st.me != nil
+//@ pred trkShape(st *stateTracker) := st != nil && st.nicks != nil && st.chans != nil && st.me != nil && allocated(st.nicks) && allocated(st.chans)
 //@     && (forall k int :: has(dom(st.nicks), k) ==> vals(st.nicks)[k] != nil && isa(vals(st.nicks)[k], "nick") && sid(vals(st.nicks)[k].nick) == k)
 //@     && (forall k int :: has(dom(st.chans), k) ==> vals(st.chans)[k] != nil && isa(vals(st.chans)[k], "channel") && sid(vals(st.chans)[k].name) == k)
 //@     && has(st.nicks, st.me.nick) && st.nicks[st.me.nick] == st.me
 
+// the two name indexes are unchanged
+//@ pred idxUnchanged(st *stateTracker) := dom(st.nicks) === old(dom(st.nicks)) && vals(st.nicks) === old(vals(st.nicks))
+//@     && dom(st.chans) === old(dom(st.chans)) && vals(st.chans) === old(vals(st.chans))
+// no membership map changes
+//@ pred membersUnchanged() := (forall m map[*channel]*ChanPrivs :: dom(m) === old(dom(m)) && vals(m) === old(vals(m)))
+//@     && (forall m map[*nick]*ChanPrivs :: dom(m) === old(dom(m)) && vals(m) === old(vals(m)))
+// no field of any existing nick / channel object changes
+//@ pred objsUnchanged(st *stateTracker) := (forall n *nick :: !fresh(n) ==> n.nick == old(n.nick) && n.ident == old(n.ident) && n.host == old(n.host) && n.name == old(n.name)
+//@            && n.chans == old(n.chans) && n.lookup == old(n.lookup) && n.modes == old(n.modes))
+//@     && (forall c *channel :: !fresh(c) ==> c.name == old(c.name) && c.topic == old(c.topic) && c.nicks == old(c.nicks) && c.lookup == old(c.lookup) && c.modes == old(c.modes))
+//@ pred privEq(a *ChanPrivs, b *ChanPrivs) := a != nil && b != nil && a.Owner == b.Owner && a.Admin == b.Admin && a.Op == b.Op && a.HalfOp == b.HalfOp && a.Voice == b.Voice
+// what deleting channel x does: x loses all members; exactly the other nicks
+// left sharing no channel are forgotten; every other membership stays
+//@ pred gcChannel(st *stateTracker, x *channel) := vals(st.chans) === old(vals(st.chans)) && vals(st.nicks) === old(vals(st.nicks)) && dom(x.nicks) === emptyset()
+//@     && (forall c *channel, n *nick :: isa(c, "channel") && c != x ==> (has(c.nicks, n) <==> old(has(c.nicks, n))))
+//@     && (forall k int :: has(dom(st.nicks), k) ==> old(has(dom(st.nicks), k)))
+//@     && (forall n *nick :: old(has(x.nicks, n)) && n != st.me && len(n.chans) == 0 ==> !has(st.nicks, n.nick))
+//@     && (forall k int :: old(has(dom(st.nicks), k)) && !has(dom(st.nicks), k) ==> old(has(x.nicks, vals(st.nicks)[k])) && vals(st.nicks)[k] != st.me && len(vals(st.nicks)[k].chans) == 0)
+// lookup consistency while nick x is being renamed from a to b: channels of x
+// not yet visited still list it under a
+//@ pred LKr(x *nick, a string, b string) := (forall n *nick, k int :: isa(n, "nick") && has(dom(n.lookup), k) ==> vals(n.lookup)[k] != nil && has(n.chans, vals(n.lookup)[k]) && sid(vals(n.lookup)[k].name) == k)
+//@     && (forall n *nick, c *channel :: isa(n, "nick") && has(n.chans, c) ==> has(n.lookup, c.name) && n.lookup[c.name] == c)
+//@     && (forall c *channel, k int :: isa(c, "channel") && has(dom(c.lookup), k) ==> vals(c.lookup)[k] != nil && has(c.nicks, vals(c.lookup)[k])
+//@            && (vals(c.lookup)[k] != x || has(visited(), c) ==> sid(vals(c.lookup)[k].nick) == k) && (vals(c.lookup)[k] == x && !has(visited(), c) ==> k == sid(a)))
+//@     && (forall c *channel, n *nick :: isa(c, "channel") && has(c.nicks, n) && (n != x || has(visited(), c)) ==> has(c.lookup, n.nick) && c.lookup[n.nick] == n)
+//@     && (forall c *channel :: isa(c, "channel") && has(c.nicks, x) && !has(visited(), c) ==> has(c.lookup, a) && c.lookup[a] == x && !has(c.lookup, b))
 // nothing about any tracked nick / channel object or any index changes
 //@ pred trkUnchanged(st *stateTracker) := dom(st.nicks) === old(dom(st.nicks)) && vals(st.nicks) === old(vals(st.nicks))
 //@     && dom(st.chans) === old(dom(st.chans)) && vals(st.chans) === old(vals(st.chans)) && st.me == old(st.me)
@@ -544,9 +650,9 @@ package state
 //@ func NewTracker
 //@   property C12
 //@   safety C12
-//@   requires [C12] TI()
-//@   ensures [C12] TI()
-//@   ensures result != nil && fresh(result) && trkShape(result) && held(result.mu) == 0
+//@   requires [C12] HI()
+//@   ensures [C12] RI(result)
+//@   ensures result != nil && fresh(result) && held(result.mu) == 0
 //@   ensures result.me.nick == mynick && dom(result.chans) === emptyset() && dom(result.nicks) === setadd(emptyset(), mynick)
 //@ end
 
